@@ -291,7 +291,7 @@ class Interp:
                 return [r]
             # in-place mutation of a tracked alias: x.update(..) / x[...] = handled in _bind; drop alias knowledge
             if isinstance(v, ast.Call) and isinstance(v.func, ast.Attribute) and isinstance(v.func.value, ast.Name) \
-                    and v.func.attr in ("update", "append", "extend", "pop", "clear", "setdefault", "insert", "remove"):
+                    and v.func.attr in ("update", "append", "extend", "pop", "clear", "setdefault", "insert", "remove", "sort", "reverse", "add", "discard"):
                 name = v.func.value.id
                 self._mutated(name, subst(v, {k: x for k, x in state.env.items() if k != name}), state)
             return [Flow("next", state)]
